@@ -1,0 +1,39 @@
+//! Verification hook registry (compiled only with `--cfg rip_verif`).
+//!
+//! A process-global callback that instrumented sites call through `point(name, ctx)`.
+//! With no callback installed a call is one atomic load. The callback may block (schedule
+//! control), copy files (crash snapshots), count (loop fuel) or panic (fuel exhausted).
+
+use std::sync::atomic::{AtomicBool, Ordering};
+use std::sync::{Arc, RwLock};
+
+type Callback = Arc<dyn Fn(&str, &str) + Send + Sync>;
+
+static INSTALLED: AtomicBool = AtomicBool::new(false);
+static CALLBACK: RwLock<Option<Callback>> = RwLock::new(None);
+
+pub fn set(cb: Callback) {
+    let mut slot = CALLBACK.write().unwrap_or_else(|e| e.into_inner());
+    *slot = Some(cb);
+    INSTALLED.store(true, Ordering::SeqCst);
+}
+
+pub fn clear() {
+    let mut slot = CALLBACK.write().unwrap_or_else(|e| e.into_inner());
+    INSTALLED.store(false, Ordering::SeqCst);
+    *slot = None;
+}
+
+#[inline]
+pub fn point(name: &str, ctx: &str) {
+    if !INSTALLED.load(Ordering::Relaxed) {
+        return;
+    }
+    let cb = {
+        let slot = CALLBACK.read().unwrap_or_else(|e| e.into_inner());
+        slot.clone()
+    };
+    if let Some(cb) = cb {
+        cb(name, ctx);
+    }
+}
